@@ -279,14 +279,15 @@ WRITERS = [
 ]
 
 
-def run_tail(ctx, rr, specs, what):
+def run_tail(ctx, rr, specs, what, scope=None):
     F = ctx.F()
     for path, min_acc in specs:
         b = F.one(path)
+        sc = scope(b) if scope else None
         A = TailAnalysis(ctx, b).run()
         rr.instances += 1
         if A.accesses < min_acc:
-            rr.violate("%s:anchor-missing" % short_fn(b.key), "reason=anchor-missing: %s: expected at least %d backend accesses (full-word slice and partial last word), found %d" % (b.key, min_acc, A.accesses), b.span)
+            rr.violate("%s:anchor-missing" % short_fn(b.key), "reason=anchor-missing: %s: expected at least %d backend accesses (full-word slice and partial last word), found %d" % (b.key, min_acc, A.accesses), b.span, props=sc)
             continue
         key = "%s:%s" % (short_fn(b.key), what)
         for _ in range(A.accesses):
@@ -299,12 +300,17 @@ def run_tail(ctx, rr, specs, what):
             if k2 in seen:
                 continue
             seen.add(k2)
-            rr.violate(k2, "%s: %s" % (b.key, msg), loc)
+            rr.violate(k2, "%s: %s" % (b.key, msg), loc, props=sc)
 
 
-@rule("R06.1", props=["C06", "C14", "C05", "C10"], floor=6, title="readers use only the first len*width/BITS words and mask the partial last word")
+@rule("R06.1", props=["C06", "C14", "C05", "C10", "C01", "C02"], floor=6, title="readers use only the first len*width/BITS words and mask the partial last word")
 def r06_1(ctx, rr):
-    run_tail(ctx, rr, READERS, "tail-masked")
+    # count_ones of a bit vector is what AddNumBits caches as num_ones: rank(len) and the select bound rest on it
+    def scope(b):
+        bitvec = b.file.endswith("bits/bit_vec.rs")
+        base = ["C06", "C14", "C10"] if bitvec else ["C05", "C14", "C10"]
+        return base + (["C01", "C02"] if "count_ones" in b.name and "Atomic" not in b.key else [])
+    run_tail(ctx, rr, READERS, "tail-masked", scope=scope)
 
 
 @rule("R14.2", props=["C14", "C10", "C06"], floor=12, title="bulk writers store whole words only below len*width/BITS and confine the last-word update to the live bits")
@@ -919,3 +925,143 @@ def r06_4(ctx, rr):
             rr.ob(ok, key=key + str(ok))
             if not ok:
                 rr.violate(key, "%s applies the low-bits mask of the residual `%s` in `%s` without `residual != 0` being established: at a word-aligned length the mask is 0 and the whole last word is cleared" % (b.key, r, show(F, n)[:80]), loc)
+
+
+@rule("R06.5", props=["C06", "C05", "C14", "C13"], floor=25, title="a bit address is split consistently: the word index `A / BITS` and the in-word offset `A % BITS` used in one access come from the same position A")
+def r06_5(ctx, rr):
+    """Every single-bit or field access of the bit-level structures computes (word, offset) = (A / BITS, A % BITS).
+    An access whose word index is derived from one position and whose shift amount from another (pop reading
+    word `len / BITS` at offset `(len - 1) % BITS`) addresses a different bit at word boundaries only.
+    `copy` moves data between two positions and is covered by R10.1-R10.3 instead."""
+    F = ctx.F()
+
+    def is_ws(x):
+        return x == ("int", 64) or (x[0] == "def" and x[1].endswith("BITS"))
+
+    def norm(t):
+        # `self.len()` and `self.len` denote the same quantity
+        if not isinstance(t, tuple):
+            return t
+        if t[0] == "call" and t[1] in ("len", "BitLength::len", "BitFieldSliceCore::len") and len(t[2]) == 1 and t[2][0][0] == "var" and t[2][0][1] == "self":
+            return ("field", norm(t[2][0]), "len")
+        return tuple(norm(x) if isinstance(x, tuple) else x for x in t)
+
+    n_fns = 0
+    for b in F.fns():
+        if not (b.file.endswith("bits/bit_vec.rs") or b.file.endswith("bits/bit_field_vec.rs")):
+            continue
+        if is_derived(b) or b.name == "copy" or b.name == "mem_size" or "mem_dbg" in b.key or "epserde" in b.key:
+            continue
+        hits = {}
+
+        def on_node(W, n, K, hits=hits):
+            k = n.get("k")
+            if W.debug_depth:
+                return
+            if k in ("AssignOp", "Assign"):
+                ts = [W.expand(W.T.term(n["l"])), W.expand(W.T.term(n["r"]))]
+            elif k == "MethodCall" and n["name"] in ("fetch_or", "fetch_and", "fetch_xor", "store", "compare_exchange", "swap"):
+                ts = [W.expand(W.T.term(n["recv"]))] + [W.expand(W.T.term(a)) for a in n["args"]]
+            elif k == "Binary":
+                ts = [W.expand(W.T.term(n))]
+            else:
+                return
+            D, M = set(), set()
+            for t in ts:
+                t = canon_masks(norm(t))
+                for x in subterms(t):
+                    if x[0] == "index" and x[2][0] == "op" and x[2][1] == "/" and is_ws(x[2][3]):
+                        D.add(x[2][2])
+                    if x[0] == "call" and x[1].endswith(("get_unchecked", "get_unchecked_mut")) and len(x[2]) == 2 and x[2][1][0] == "op" and x[2][1][1] == "/" and is_ws(x[2][1][3]):
+                        D.add(x[2][1][2])
+                    if x[0] == "op" and x[1] in ("<<", ">>") and x[3][0] == "op" and x[3][1] == "%" and is_ws(x[3][3]):
+                        M.add(x[3][2])
+                    if x[0] == "lowmask" and x[1][0] == "op" and x[1][1] == "%" and is_ws(x[1][3]):
+                        M.add(x[1][2])
+            if D and M:
+                hits.setdefault((tuple(sorted(map(repr, D))), tuple(sorted(map(repr, M)))), (n, D, M))
+        Walker(F, b, on_node=on_node).run()
+        if not hits:
+            continue
+        n_fns += 1
+        atomic = "Atomic" in b.key
+        bitvec = b.file.endswith("bits/bit_vec.rs")
+        scope = (["C06", "C14"] if bitvec else ["C05", "C14"]) + (["C13"] if atomic else [])
+        for (dk, mk), (n, D, M) in sorted(hits.items()):
+            rr.instances += 1
+            key = "%s:one-position-per-access" % short_fn(b.key)
+            ok = D == M
+            rr.ob(ok, key=key, sample={"fn": b.key, "word_of": [tshow(x)[:60] for x in D], "offset_of": [tshow(x)[:60] for x in M]})
+            if not ok:
+                rr.violate(key, "%s: `%s` takes the word index from %s and the in-word offset from %s; the two agree except at word boundaries" % (
+                    b.key, show(F, n)[:100], " / ".join("`%s`" % tshow(x)[:60] for x in D), " / ".join("`%s`" % tshow(x)[:60] for x in M)), F.loc(n), props=scope)
+    if n_fns < 15:
+        raise AnchorMissing("R06.5 found bit-address splits in %d functions only" % n_fns)
+
+
+@rule("R14.5", props=["C14", "C06", "C05", "C01", "C02"], floor=6, title="observers never look at how many words the backend has (its length, its last word): only the first ceil(len*width/BITS) words are contents")
+def r14_5(ctx, rr):
+    """A backend may be longer than the logical contents need (after pop/resize/clear, or when handed to
+    from_raw_parts). Equality and counting that consult `bits.len()`, `bits.last()` ... give different answers
+    for equal contents depending on the vector's history."""
+    F = ctx.F()
+    WHOLE = ("slice::len", "Vec::len", "slice::last", "slice::split_last", "slice::is_empty", "Vec::is_empty", "slice::last_mut", "Vec::capacity", "slice::ends_with")
+    for path, _ in READERS:
+        b = F.one(path)
+        rr.instances += 1
+        bitvec = b.file.endswith("bits/bit_vec.rs")
+        sc = (["C06", "C14"] if bitvec else ["C05", "C14"]) + (["C01", "C02"] if "count_ones" in b.name and "Atomic" not in b.key else [])
+        bad = []
+
+        def on_node(W, n, K, bad=bad):
+            if W.debug_depth:
+                return
+            if n.get("k") == "MethodCall" and cname(F, n) in WHOLE:
+                t = W.expand(W.T.term(n["recv"]))
+                # the receiver is the backend itself (not a sub-slice of it)
+                if t[0] in ("var", "field") or (t[0] == "call" and t[1] in ("AsRef::as_ref", "Deref::deref")):
+                    bad.append(n)
+        Walker(F, b, on_node=on_node).run()
+        key = "%s:independent-of-backend-length" % short_fn(b.key)
+        rr.ob(not bad, key=key, sample={"fn": b.key})
+        for n in bad[:1]:
+            rr.violate(key, "%s consults `%s`: the number of words of the backend (or its last word) is not part of the logical contents; two vectors with equal contents and different histories would be told apart" % (b.key, show(F, n)[:80]), F.loc(n), props=sc)
+
+
+@rule("R06.6", props=["C06", "C05", "C03"], floor=3, title="Extend: the logical length follows every element inside the loop over the caller's iterator (a panicking or early-ending source leaves what was appended so far)")
+def r06_6(ctx, rr):
+    """`extend` consumes an iterator supplied by the caller, which may panic or stop at any element. A Vec keeps
+    the elements appended so far; so must these structures: the iteration that stores an element also advances
+    the length (through `push`, or by assigning the length field in the loop body), never a local copy written
+    back after the loop."""
+    F = ctx.F()
+    exts = [b for b in F.fns() if b.name == "extend" and re.search(r" as (std|core)::iter::Extend<", b.key)]
+    if len(exts) < 3:
+        raise AnchorMissing("expected the Extend impls of BitVec, BitFieldVec and EliasFanoBuilder, found %d" % len(exts))
+    for b in exts:
+        loops = [n for n in walk(b.body) if n.get("k") == "Loop"]
+        rr.instances += 1
+        key = "%s:length-follows-each-element" % short_fn(b.key)
+        if not loops:
+            # delegating to another extend/for_each is fine as long as it goes through push
+            ok = any(n.get("k") == "MethodCall" and n["name"] in ("push", "extend") for n in walk(b.body))
+            rr.check(ok, key, "%s has neither a loop nor a delegation to push/extend" % b.key, b.span, props=_ext_scope(b))
+            continue
+        lp = loops[0]
+        body = lp["body"]
+        pushes = [n for n in walk(body) if n.get("k") == "MethodCall" and n["name"] in ("push", "push_unchecked") and n["recv"].get("k") == "Path" and n["recv"].get("name") == "self"]
+        len_writes = [n for n in walk(body) if n.get("k") in ("Assign", "AssignOp") and n["l"].get("k") == "Field" and n["l"]["name"] in ("len", "count") and n["l"]["e"].get("k") == "Path" and n["l"]["e"].get("name") == "self"]
+        self_writes = [n for n in walk(body) if (n.get("k") in ("Assign", "AssignOp") and any(x.get("k") == "Path" and x.get("name") == "self" for x in walk(n["l"]))) or
+                       (n.get("k") == "MethodCall" and n["name"] in ("push", "set_unchecked", "set", "resize", "reserve") and any(x.get("k") == "Path" and x.get("name") == "self" for x in walk(n["recv"])))]
+        ok = bool(pushes) or bool(len_writes) or not self_writes
+        rr.ob(ok, key=key, sample={"fn": b.key, "via_push": bool(pushes), "len_assigned_in_loop": bool(len_writes)})
+        if not ok:
+            rr.violate(key, "%s stores elements inside the loop over the caller's iterator (`%s`) but advances the length only outside it: if the iterator panics, the elements already appended are lost (a Vec keeps them)" % (b.key, show(F, self_writes[0])[:80]), F.loc(self_writes[0]), props=_ext_scope(b))
+
+
+def _ext_scope(b):
+    if b.file.endswith("bits/bit_vec.rs"):
+        return ["C06"]
+    if b.file.endswith("bits/bit_field_vec.rs"):
+        return ["C05"]
+    return ["C03"]
